@@ -35,12 +35,15 @@ def build(src, work):
     return exe, shim
 
 
-def setup(d, dpre):
+def setup(d, dpre, twonames=False):
     shutil.rmtree(d, ignore_errors=True)
     os.makedirs(d)
     for n, c in (("L", b"same-bytes" * 50), ("K", b"same-bytes" * 50), ("B", b"bystander" * 10)):
         with open(os.path.join(d, n), "wb") as f:
             f.write(c)
+    if twonames:
+        # the file that gets replaced has a second name: the metadata captured for the command says nlink == 2
+        os.link(os.path.join(d, "L"), os.path.join(d, "L_other_name"))
     os.makedirs(os.path.join(d, "P"))
     if dpre:
         with open(os.path.join(d, "P", "D"), "wb") as f:
@@ -74,6 +77,8 @@ def check(op, before, after, result, warned, dpre, killed, lock_held):
         bad.append("retained file changed")
     if after.get("B") != B0:
         bad.append("bystander changed")
+    if "L_other_name" in before and after.get("L_other_name") != before["L_other_name"]:
+        bad.append("another name of the replaced file changed")
     if dpre and after.get("P/D") != before.get("P/D"):
         bad.append("existing move target altered")
     temps = [k for k in after if re.match(r"L\.[A-Za-z0-9]{24}$", k)]
@@ -143,16 +148,16 @@ def main():
     found = []
     kinds = {"remove": ["unlink"], "link": ["rename", "link", "unlink"], "soft": ["rename", "symlink", "unlink"],
              "move": ["rename", "mkdir", "create", "copy", "unlink"]}[op]
-    variants = [(False, False)] if op != "move" else [(ur, dp) for ur in (True, False) for dp in (False, True)]
+    variants = [(False, False, False), (False, False, True)] if op != "move" else [(ur, dp, tn) for ur in (True, False) for dp in (False, True) for tn in ((False, True) if not dp else (False,))]
     runs = 0
-    for use_rename, dpre in variants:
+    for use_rename, dpre, twonames in variants:
         if mode == "lock":
-            setup(d, dpre); before = snap(d)
+            setup(d, dpre, twonames); before = snap(d)
             res, warned, rc, out = run_one(exe, shim, d, op, use_rename, True, hold_lock=True)
             runs += 1
             bad = check(op, before, snap(d), res, warned, dpre, False, True)
             if bad:
-                found.append({"op": op, "use_rename": use_rename, "target_exists": dpre, "lock_held": True, "violations": bad})
+                found.append({"op": op, "use_rename": use_rename, "target_exists": dpre, "two_names": twonames, "lock_held": True, "violations": bad})
             continue
         points = [(k, i) for k in kinds for i in (1, 2)]
         plans = [None] + ["%s:%d" % p for p in points] + ["%s:%d,%s:%d" % (a + b) for a, b in itertools.combinations(points, 2)]
@@ -160,20 +165,20 @@ def main():
             # single faults are tried with every error class the property names, double faults with EIO
             errs = [None] if (plan is None or "," in plan) else [None, "EACCES", "EPERM", "ENOSPC", "EXDEV", "EOPNOTSUPP"]
             for err in errs:
-                setup(d, dpre); before = snap(d)
+                setup(d, dpre, twonames); before = snap(d)
                 res, warned, rc, out = run_one(exe, shim, d, op, use_rename, False, plan=plan, err=err)
                 runs += 1
                 bad = check(op, before, snap(d), res, warned, dpre, False, False)
                 if bad:
-                    found.append({"op": op, "use_rename": use_rename, "target_exists": dpre, "fault_plan": plan, "errno": err or "EIO", "result": res, "violations": bad})
+                    found.append({"op": op, "use_rename": use_rename, "target_exists": dpre, "two_names": twonames, "fault_plan": plan, "errno": err or "EIO", "result": res, "violations": bad})
         for k, i in points:
             for when in ("before", "after"):
-                setup(d, dpre); before = snap(d)
+                setup(d, dpre, twonames); before = snap(d)
                 res, warned, rc, out = run_one(exe, shim, d, op, use_rename, False, kill="%s:%d:%s" % (k, i, when))
                 runs += 1
                 bad = check(op, before, snap(d), res, warned, dpre, rc != 0 and res is None, False)
                 if bad:
-                    found.append({"op": op, "use_rename": use_rename, "target_exists": dpre, "kill": "%s:%d:%s" % (k, i, when), "violations": bad})
+                    found.append({"op": op, "use_rename": use_rename, "target_exists": dpre, "two_names": twonames, "kill": "%s:%d:%s" % (k, i, when), "violations": bad})
     shutil.rmtree(d, ignore_errors=True)
     print(json.dumps({"runs": runs, "violations": found[:20], "n": len(found)}))
 
